@@ -50,11 +50,40 @@ def export_behaviours(chk, cfgs, simulate=None):
         log(f"[mc] {cfg}: {res['distinct']} distinct states, {res['generated']} transitions, {len(reps)} behaviours exported")
     return out
 
-def make_behaviours(chk, exported, kinds, cfg_policy="alt", cells=None, conc_variants=(0, 1, 2, None)):
+def with_stutters(exported, seed, n):
+    """TLC visits a state once, so an exported path never continues THROUGH a step that leaves the specification's state
+    unchanged (a rejected duplicate batch, a re-submission of current values, an empty batch): such steps only ever come
+    last. An implementation may keep hidden state there. For a seeded sample of behaviours, one such step is inserted at a
+    random position before the last step; the trace specification validates it like any other (err / noop, nothing changes)."""
+    rnd = random.Random(seed * 31 + 5)
+    flat = [x for x in exported if not x[3] and len(x[2]) >= 1]
+    out = []
+    for (labels, values, steps, deep) in rnd.sample(flat, min(n, len(flat))):
+        pos = rnd.randint(0, len(steps) - 1)
+        cur = {}
+        for st in steps[:pos]:
+            if st["op"] == "publish":
+                labs = [p[0] for p in st["batch"]]
+                if len(set(labs)) == len(labs):
+                    for l, v in st["batch"]:
+                        cur[l] = v
+        kind = rnd.randint(0, 2)
+        if kind == 0 or not cur:
+            extra = {"op": "publish", "batch": [[labels[0], values[0]], [labels[0], values[-1]]]}     # repeated label: rejected
+        elif kind == 1:
+            extra = {"op": "publish", "batch": [[l, v] for l, v in sorted(cur.items())]}                # re-submission: no-op
+        else:
+            extra = {"op": "publish", "batch": []}                                                       # empty batch: no-op
+        out.append((labels, values, steps[:pos] + [extra] + steps[pos:], deep))
+    return out
+
+def make_behaviours(chk, exported, kinds, cfg_policy="alt", cells=None, conc_variants=(0, 1, 2, None), stutters=0):
     """Turn exported (path, act) pairs into harness behaviours."""
     cells = cells or [DEFAULT_CELL]
     bs = []
     i = 0
+    if stutters:
+        exported = exported + with_stutters(exported, chk.seed, stutters)
     for (labels, values, steps, deep) in exported:
         cfgs = ["wa", "exp"] if cfg_policy == "both" else [["wa", "exp"][i % 2]]
         for c in cfgs:
@@ -136,7 +165,7 @@ def dir_check(pid, kinds, nontrivial, rule, cfg_policy="alt", extra_quick_cfgs=(
         cfgs = thorough_cfgs or ["MCDirectory_quick.cfg", "MCDirectory_empty.cfg", "MCDirectory_other.cfg", "MCDirectory_thorough.cfg", "MCDirectory_deep.cfg"]
         sim = f"num=60 -depth 24 -seed {chk.seed}"
     exported = export_behaviours(chk, cfgs, simulate=sim)
-    bs = make_behaviours(chk, exported, kinds, cfg_policy="both" if chk.tier == "thorough" else cfg_policy)
+    bs = make_behaviours(chk, exported, kinds, cfg_policy="both" if chk.tier == "thorough" else cfg_policy, stutters=1500 if chk.tier == "quick" else 12000)
     if with_long:
         for b in long_histories(kinds):
             bs.append(dict(b, id=len(bs) + 1))
